@@ -50,11 +50,16 @@ class Script:
         self.case = None
         self.events = None
         self.chlog = []
+        self.kwlog = []       # keyword arguments the pager passed to its wrapped method (pages >= 2), see spy()
+        self.served = 0
+        self.issued = ''
 
     def page_dict(self, kind, pages, i):
         before = sum(p['n'] for p in pages[:i - 1])
         ids = [before + k for k in range(1, pages[i - 1]['n'] + 1)]
-        d = {'total': i, 'next_page_token': f't{i}' if pages[i - 1]['more'] else ''}
+        # token texts: distinct per page (t1, t2, ...) or, cursor style, the SAME non-empty text on every page
+        tok = ('cursor-7' if self.case.get('tokmode') == 'same' else f't{i}') if pages[i - 1]['more'] else ''
+        d = {'total': i, 'next_page_token': tok}
         if kind == 'msg':
             d['items'] = [{'id': x} for x in ids]
         elif kind == 'scalar':
@@ -68,23 +73,68 @@ class Script:
         m = self.pl['methods'][c['kind']]
         req = self.pool.decode(m['req'], reqs[0]) if len(reqs) == 1 else {'page_token': '?'}
         tok = req.pop('page_token', '')
-        i = 1 if tok == '' else tok_num(tok) + 1
+        if c.get('tokmode') == 'same':
+            # the page is determined by how many were served; the token is "the one issued by the previous page" iff its text is
+            i = self.served + 1
+            tnum = (self.served if tok == self.issued else 99) if self.served else (0 if tok == '' else 99)
+        else:
+            i = 1 if tok == '' else tok_num(tok) + 1
+            tnum = tok_num(tok)
         # the channel-side record of this attempt is the last ChannelCall
         to = None
         for e in reversed(self.chlog):
             if e['ev'] == 'ChannelCall':
                 to = e['timeout']; break
+        # retry: not visible at the channel; for pages >= 2 it is what the pager handed to its wrapped method (spy), for the first
+        # page it is the caller's own argument
+        first = not any(e['ev'] in ('first', 'fetch') for e in self.events)
+        rk = c.get('retry', 'default') if first or not self.kwlog else self.kwlog[-1]
         opts = canon({'md': sorted([k, v] for k, v in md if k.startswith('x-verif')),
-                      'timeout': None if to is None else round(to)})
+                      'timeout': None if to is None else round(to), 'retry': rk})
         expected_path = f"/{self.pl['pkg']}.{self.pl['service']}/{m['name']}"
         ev = dict(ev='first' if not any(e['ev'] in ('first', 'fetch') for e in self.events) else 'fetch',
-                  token=tok_num(tok), others=canon(req) if path == expected_path else 'WRONG-PATH:' + path,
+                  token=tnum, others=canon(req) if path == expected_path else 'WRONG-PATH:' + path,
                   opts=opts, item=0, attr=0)
         self.events.append(ev)
         pages = c['pages']
         if i < 1 or i > len(pages):
             raise lg.Abort('OUT_OF_RANGE', 'no such page')
-        return [self.pool.encode(m['resp'], self.page_dict(c['kind'], pages, i))]
+        pd = self.page_dict(c['kind'], pages, i)
+        self.served += 1
+        self.issued = pd['next_page_token']
+        return [self.pool.encode(m['resp'], pd)]
+
+
+def retry_kind(v):
+    from google.api_core import gapic_v1
+    return 'none' if v is None else 'default' if v is gapic_v1.method.DEFAULT else 'object'
+
+
+def retry_arg(c, asyncio_):
+    """the caller's retry argument for this case: absent (the client default), an explicit None, or a Retry object."""
+    from google.api_core import retry as retries
+    k = c.get('retry', 'default')
+    if k == 'none':
+        return {'retry': None}
+    if k == 'object':
+        try:
+            from google.api_core import retry_async
+            R = retry_async.AsyncRetry if asyncio_ else retries.Retry
+        except ImportError:
+            R = retries.Retry
+        return {'retry': R(predicate=lambda e: False)}
+    return {}
+
+
+def spy(script, pager):
+    """record the retry argument of every further page fetch (the pager calls its wrapped method for pages >= 2)."""
+    if hasattr(pager, '_method'):
+        orig = pager._method
+
+        def wrapped(*a, **kw):
+            script.kwlog.append(retry_kind(kw['retry']) if 'retry' in kw else 'absent')
+            return orig(*a, **kw)
+        pager._method = wrapped
 
 
 def run_sync(pl, script, client, mod, c):
@@ -93,13 +143,15 @@ def run_sync(pl, script, client, mod, c):
     base = dict(c['base'])
     md = [tuple(x) for x in c.get('md', [])]
     events.append(dict(ev='invoke', others=canon(base), token=0, item=0, attr=0,
-                       opts=canon({'md': sorted([k, v] for k, v in md), 'timeout': c.get('timeout')})))
+                       opts=canon({'md': sorted([k, v] for k, v in md), 'timeout': c.get('timeout'), 'retry': c.get('retry', 'default')})))
     kw = {}
     if md:
         kw['metadata'] = md
     if c.get('timeout') is not None:
         kw['timeout'] = float(c['timeout'])
+    kw.update(retry_arg(c, False))
     pager = getattr(client, m['snake'])(request=(c.get('_reqobj') if c.get('_reqobj') is not None else base), **kw)
+    spy(script, pager)
     for x in pager:
         events.append(dict(ev='yield', item=item_id(c['kind'], x), attr=int(pager.total), token=0, others='', opts=''))
     events.append(dict(ev='stop', attr=int(pager.total), item=0, token=0, others='', opts=''))
@@ -111,13 +163,15 @@ async def run_async(pl, script, client, mod, c):
     base = dict(c['base'])
     md = [tuple(x) for x in c.get('md', [])]
     events.append(dict(ev='invoke', others=canon(base), token=0, item=0, attr=0,
-                       opts=canon({'md': sorted([k, v] for k, v in md), 'timeout': c.get('timeout')})))
+                       opts=canon({'md': sorted([k, v] for k, v in md), 'timeout': c.get('timeout'), 'retry': c.get('retry', 'default')})))
     kw = {}
     if md:
         kw['metadata'] = md
     if c.get('timeout') is not None:
         kw['timeout'] = float(c['timeout'])
+    kw.update(retry_arg(c, True))
     pager = await getattr(client, m['snake'])(request=(c.get('_reqobj') if c.get('_reqobj') is not None else base), **kw)
+    spy(script, pager)
     async for x in pager:
         events.append(dict(ev='yield', item=item_id(c['kind'], x), attr=int(pager.total), token=0, others='', opts=''))
     events.append(dict(ev='stop', attr=int(pager.total), item=0, token=0, others='', opts=''))
@@ -140,7 +194,7 @@ def main():
                     rounds = [dict(c0, _reqobj=obj), dict(c0, _reqobj=obj, id=c0['id'] + ':again')]
                 for c in rounds:
                     script.case, script.events = c, []
-                    del script.chlog[:]
+                    del script.chlog[:]; del script.kwlog[:]; script.served, script.issued = 0, ''
                     err = None
                     try:
                         run_sync(pl, script, client, mod, c)
@@ -160,7 +214,7 @@ def main():
                         rounds = [dict(c0, _reqobj=obj), dict(c0, _reqobj=obj, id=c0['id'] + ':again')]
                     for c in rounds:
                         script.case, script.events = c, []
-                        del script.chlog[:]
+                        del script.chlog[:]; del script.kwlog[:]; script.served, script.issued = 0, ''
                         err = None
                         try:
                             await run_async(pl, script, client, mod, c)
